@@ -1,13 +1,15 @@
 """C06 – a value edit discards exactly its dependents; inputs persist.
 
 Correspondence: held values with input/computed marks and the trace graph against the
-Lean mechanism model after every op (assign, overwrite, clear_at, clear, clear_all, eval).
+Lean mechanism model after every op (assign, overwrite, clear_at, clear, clear_all, eval; in the scenario family
+"input then redefinition" also a new formula and a switch of the cache flag).
 Oracle (implementation only, own replay): before each value edit the dependents of the
 edited element are computed from the edges of the dependency graph by the harness' own
 breadth-first search; after the edit exactly those (and the element itself) are gone,
 everything else is still held, unchanged, and is served without any formula running;
 user-assigned values survive clear() and edits of other elements and are what the cells
-returns; with the recalculation option on, the former leaf dependents are held again with
+returns; an element is treated as an input iff a value was assigned to it and it was not cleared since (a ledger
+kept from the operations alone, compared with the implementation's input marks after every operation); with the recalculation option on, the former leaf dependents are held again with
 the values lazy recomputation gives.
 """
 from .. import exec_props as X
@@ -54,10 +56,22 @@ def descendants(edges, start):
     return seen
 
 
+def check_inputs(impl, inputs, op, hist, out):
+    """an element is an input iff a value was assigned to it and it was not cleared since (the ledger `inputs`,
+    kept from the operations alone) - what clear() and a change of the namespace spare"""
+    marked = {x for x, v in parse_values(impl.observe("values")).items() if v.endswith("I")}
+    if marked != inputs:
+        out.fail("after %s the elements treated as inputs are %s; assigned and not cleared since: %s" % (
+            " ".join(op), sorted(marked), sorted(inputs)), hist)
+        return False
+    return True
+
+
 def oracle(case, recs, out, stats):
     nontrivial = False
     for recalc in (False, True):
         impl = ExecImpl(case["cells"], case["refs"], case["n_rn"], case["maxdepth"], log=True)
+        inputs, inputs_ok = set(), True
         try:
             if recalc:
                 mx.set_recalc(True)
@@ -66,6 +80,7 @@ def oracle(case, recs, out, stats):
                 hist["recalc"] = recalc
                 if op[0] == "eval":
                     impl.apply(op)
+                    inputs_ok = inputs_ok and check_inputs(impl, inputs, op, hist, out)
                     continue
                 before = parse_values(impl.observe("values"))
                 nodes, edges = parse_graph(impl.observe("graph"))
@@ -83,12 +98,22 @@ def oracle(case, recs, out, stats):
                     if op[0] == "set" and res != "ok" and not recalc_failed:
                         targets = []        # a refused assignment (unhashable key, None not allowed) changes nothing
                 elif op[0] == "clear":
-                    targets = [x for x, v in before.items() if x.startswith("%d[" % cid) and v.endswith("C")]
+                    # everything of the cells that is not an input (by the ledger, not by the implementation's marks)
+                    targets = [x for x in before if x.startswith("%d[" % cid) and x not in inputs]
                 else:
+                    # clear_all; a new formula or a switch of the cache flag: every element of the cells, inputs too
+                    # (and what was computed through the cells while it was uncached)
                     targets = [x for x in before if x.startswith("%d[" % cid)]
                 gone = set(targets)
-                for t in targets:
+                for t in targets + (["%d*" % cid] if op[0] in ("setformula", "setcached") else []):
                     gone |= {x for x in descendants(edges, t) if not x.endswith("*")}
+                # the ledger of inputs
+                if op[0] == "set" and (res == "ok" or recalc_failed):
+                    inputs.add(n)
+                elif op[0] == "clearat":
+                    inputs.discard(n)
+                elif op[0] in ("clearall", "setformula", "setcached"):
+                    inputs -= {x for x in inputs if x.startswith("%d[" % cid)}
                 expect = {x: v for x, v in before.items() if x not in gone}
                 leaves = []
                 if op[0] == "set" and (res == "ok" or recalc_failed):
@@ -97,6 +122,7 @@ def oracle(case, recs, out, stats):
                         ds = descendants(edges, n)
                         leaves = [x for x in ds if not x.endswith("*") and not any(a == x for a, _ in edges)]
                 stats["oracle_edits_examined"] += 1
+                inputs_ok = inputs_ok and check_inputs(impl, inputs, op, hist, out)
                 if gone - set(targets) and len(expect) > (1 if op[0] == "set" else 0):
                     nontrivial = True
                 if recalc and leaves:
@@ -109,7 +135,8 @@ def oracle(case, recs, out, stats):
                     # computes (also elements never held before, when the new value sends a formula down another
                     # path) and nothing else
                     extra = {x: v for x, v in after.items() if x not in expect}
-                    lazy = _lazy_values(case, k, [x for x in leaves if x in after])
+                    # every former leaf is evaluated lazily, also one whose recalculation failed: what it computed before failing stays
+                    lazy = _lazy_values(case, k, leaves)
                     for x, v in extra.items():
                         if lazy.get(x) != v:
                             out.fail("recalc: %s is %s after %s but the lazy edit followed by evaluating the former leaf "
@@ -205,8 +232,18 @@ def overwrite_equal(out, stats):
     close_all()
 
 
+def scenario_cases():
+    """Scenario family "an input does not outlive the redefinition of its cells" (exec_props.input_then_redefined_cases)
+    with a value edit as the last step: clear() must discard the recomputed element (it is not an input any more) with
+    its dependent; clear_at / clear_all / an assignment behave as for any computed element.  The ledger of inputs is
+    compared after every operation."""
+    return X.input_then_redefined_cases({
+        "clear": lambda R: [["clear", "0"]], "clearat": lambda R: [["clearat", "0"]],
+        "clearall": lambda R: [["clearall", "0"]], "set": lambda R: [["set", "0", "=", "8"]]})
+
+
 def run(ctx, out):
-    stats = X.run_family(ctx, out, CFG, oracle, 120, 2000)
+    stats = X.run_family(ctx, out, CFG, oracle, 120, 2000, structured=scenario_cases())
     overwrite_equal(out, stats)
     out.coverage["input_distribution"]["overwrite_equal_scenarios"] = stats["overwrite_equal_scenarios"]
     out.assumptions.append("the recalculation option is checked by the implementation-only oracle; the Lean "
